@@ -5,8 +5,10 @@ use vstd::prelude::*;
 //@include shims/macros.rs
 verus! {
 //@include shims/core.rs
+//@include shims/alloc_free.rs
 //@include spec/hash.rs
 //@enum OpCodes @ src/script/op_codes.rs clone copy partialeq eq
+//@enumtable OpCodes @ src/script/op_codes.rs from_u8
 //@enum ScriptBit @ src/script/script_bit.rs
 //@struct Script @ src/script/mod.rs clone
 //@struct Hash @ src/hash/mod.rs clone
@@ -15,6 +17,7 @@ verus! {
 //@struct TxOut @ src/transaction/txout.rs clone
 //@struct Transaction @ src/transaction/mod.rs clone
 //@include spec/script.rs
+//@include spec/script_tok.rs
 //@include spec/tx.rs
 impl HashCache {
 //@fn HashCache::new
